@@ -223,6 +223,40 @@ example :
     ((handleSetRange c [b "setrange", b "k1", b "1", b "ZZ"]).run c { dbs := [], mem := 0 }).1.lookup 0 (b "k1")
       = some ⟨.str (b "ZZ"), none⟩ := by decide
 
+/-- **SETRANGE inside an existing string overwrites bytes** (repaired in /repo by a `fix:` commit; before it
+    the stored string was converted to runes and indexed by byte offsets: multi-byte characters were re-encoded
+    and some offsets panicked). For every state, live string key holding `t` (ANY bytes), offset `0 ≤ o < |t|`
+    and value `v` (any bytes): the key afterwards holds `t[0,o) ++ v ++ t[o+|v|, …)` with its deadline kept,
+    the reply is the length of that string, and no other key of the database is touched. -/
+theorem setrange_overwrites_bytes (c : Ctx) (s : State) (k off v t : Bytes) (ex : Option Int) (offset : Int)
+    (hm : c.cfg.maxMemory = 0) (h : s.lookup c.db k = some ⟨.str t, ex⟩)
+    (hlive : (⟨.str t, ex⟩ : Entry).expired c.now = false)
+    (ho : asInt? off = some (some offset)) (h0 : 0 ≤ offset) (hlt : offset < t.length) :
+    let r := t.take offset.toNat ++ v ++ t.drop (offset.toNat + v.length)
+    ((handleSetRange c [b "setrange", k, off, v]).run c s).2 = .done (.ok (intReply r.length)) ∧
+    ((handleSetRange c [b "setrange", k, off, v]).run c s).1.lookup c.db k = some ⟨.str r, ex⟩ ∧
+    (∀ k2, k ≠ k2 → ((handleSetRange c [b "setrange", k, off, v]).run c s).1.lookup c.db k2 = s.lookup c.db k2) := by
+  intro r
+  obtain ⟨hs1, hs2, hs3⟩ := setValues_single c s k (.str r) hm
+  have hge : ¬ (offset ≥ (t.length : Int)) := by omega
+  have hneg : ¬ (offset < 0) := by omega
+  have hrun : (handleSetRange c [b "setrange", k, off, v]).run c s =
+      ((setValues c s [(k, .str r)]).1, .done (.ok (intReply r.length))) := by
+    have hs1' := hs1
+    simp only [r, List.append_assoc] at hs1'
+    simp [handleSetRange, keysExist_single, h, ho, getValues_live _ _ _ _ h hlive, hge, hneg, setOrErr, r, hs1']
+  rw [hrun]
+  simp only [h, Option.bind_some] at hs2
+  exact ⟨rfl, hs2, hs3⟩
+
+/-- non-vacuity (the input the thorough tier found panicking): APPEND k1 "ünï"; SETRANGE k1 0 <20 digits> -/
+example :
+    let c : Ctx := { db := 0, now := 1000 }
+    let t : Bytes := [0xc3, 0xbc, 0x6e, 0xc3, 0xaf]
+    let s : State := { dbs := [(0, ⟨[(b "k1", ⟨.str t, none⟩)], []⟩)], mem := 57 }
+    ((handleSetRange c [b "setrange", b "k1", b "0", b "12345678901234567890"]).run c s).2
+      = .done (.ok (b ":20\r\n")) := by decide
+
 /-! ### where the full statement fails (model witnesses; each is a class of Known.lean) -/
 
 /-- numeric-looking text is rewritten: SET k 007; GET k answers 7 -/
